@@ -25,7 +25,7 @@ use vh::alloc;
 use vh::*;
 
 const MAX: usize = 160 * 1024;
-const WALL_MS: u64 = 20_000;
+const WALL_MS: u64 = 60_000;
 /// consecutive zero-byte reads after which the counting reader declares a livelock (a correct parser
 /// polls an exhausted / full reader at most a handful of times before it grows, recovers or returns)
 const ZERO_READ_LIMIT: usize = 1_000;
@@ -582,7 +582,7 @@ fn main() {
             "C09 only requires 'returns Ok or Err' for input without a final newline: outcomes are not compared across read chunkings (that is C10 / F8)".into(),
             "a line of total length <= MAX_BUFFER_CAPACITY may be parsed or dropped (documented as fuzzy: 'at least 80KB, at most 160KB'); for INFO/PUBLIC/FILE lines the result must equal the reference without the line, or the reference plus exactly that record; for FUNC / STACK CFI INIT / garbage lines below MAX only totality and the window are judged".into(),
             "the dropped-line equality is required only when the file ends with a newline and a MODULE line precedes the long line".into(),
-            "hang = more than 1000 consecutive zero-byte reads seen by the counting reader (deterministic) or, as a backstop, 20 s wall in the worker".into(),
+            "hang = more than 1000 consecutive zero-byte reads seen by the counting reader (deterministic) or, as a backstop, 60 s wall in the worker".into(),
             "the window is observed as bytes_read - bytes_passed_to_callback at every Read::read call and callback call; heap growth is additionally bounded (2*MAX + 1 MiB + 8*prefix, + 3*line when the line fits) in the longline space when allocation counting is on (sandbox workers)".into(),
             "parse_async is not driven here (it needs the http supplier; C10/C16 bind it)".into(),
         ];
